@@ -515,15 +515,43 @@ func CheckC16(p *Pkg, e *Env, r *res.Result) {
 						vecs = append(vecs, m)
 					}
 				}
-				for _, creds := range vecs {
+				for vi, creds := range vecs {
 					req := httptest.NewRequest(op.Method, "http://h.example"+p.BasePath+concretePath(op.Template), nil)
 					h.Apply(req, creds)
+					// a declared OPTIONS operation is an operation like any other, also when the
+					// request looks like a browser's preflight
+					if op.Method == "OPTIONS" && vi%2 == 0 {
+						req.Header.Set("Origin", "https://app.example")
+						req.Header.Set("Access-Control-Request-Method", "GET")
+						req.Header.Set("Access-Control-Request-Headers", "authorization, x-trace")
+					}
 					class := "routed-public"
 					if secured {
 						class = "routed-secured"
 					}
 					if !check(class, k, req, op) {
 						return
+					}
+					// the request is forwarded (internal redirect, legacy alias): a second dispatch
+					// with a context derived from the first one sees the template of the SECOND
+					// operation in every middleware
+					if len(in.Calls) == 1 && in.Calls[0].Req != nil && rep == 0 {
+						ctx := in.Calls[0].Req.Context()
+						for _, op2 := range p.Ops {
+							if op2.Template == op.Template {
+								continue
+							}
+							req2 := httptest.NewRequest(op2.Method, "http://h.example"+p.BasePath+concretePath(op2.Template), nil).WithContext(ctx)
+							all := map[string]refmodel.Cred{}
+							for _, n := range names {
+								all[n] = refmodel.CredValid
+							}
+							h.Apply(req2, all)
+							if !check("re-dispatched-with-derived-context", k, req2, op2) {
+								return
+							}
+							break
+						}
 					}
 				}
 				// CORS preflight / undeclared method on a declared path
